@@ -25,7 +25,7 @@ META = dict(
                 '"Never modifies its inputs" and "deterministic function of seed and inputs" are definitional in a pure model: decided by the oracle only '
                 '(pg.to_json of every input incl. metadata and the shape of the input list before/after; two runs with equal seeds compared by value and identity pattern). '
                 'Not modelled: Mersenne Twister (draws are recorded), the iteration order of Python sets of DNAs (recorded as a permutation), float rounding '
-                '(dyadic floats; cases whose averages leave the 1/64 grid are checked by the oracle only), custom decision points, GlobalStateGetter/Setter, scalars schedules.'),
+                '(dyadic floats; cases whose averages leave the 1/64 grid are checked by the oracle only), custom decision points (oracle only), scalars schedules.'),
     rule=('a case is (specification, operator expression, population with identities and fitness, recorded draws); distinct by its wire text; '
           'non-trivial when the expression contains a mutator or recombinator and the run draws at least once, or is a selector on a population of >= 2'),
     trusted_base=['extraction: ExtrOcamlBasic only; ocaml/main.ml lexer/printer; cross-checked against vm_compute on a sample',
@@ -122,7 +122,7 @@ def err_code(e):
 
 # documented preconditions: an exception of one of these shapes is the operator refusing its input, not a violation
 ALLOWED = [
-    (RuntimeError, 'Immutable DNA'), (ValueError, 'supports recombination on exact'), (KeyError, 'reward'),
+    (RuntimeError, 'Immutable DNA'), (KeyError, "'k"), (ValueError, 'supports recombination on exact'), (KeyError, 'reward'),
     (TypeError, 'The input is expected to be a list of'), (IndexError, 'list index out of range'),
     (IndexError, 'Cannot choose from an empty sequence'), (ValueError, 'Total of weights must be greater than zero'),
     (ZeroDivisionError, ''), (NotImplementedError, '`random_dna` is not supported'), (ValueError, 'Sample larger than population'),
@@ -209,6 +209,14 @@ class Builder:
         gc.collect()                       # objects of operands evaluated earlier that nobody holds any more go away now
         return inner(xs)
       return plain
+    if t == 20: return base.GlobalStateGetter('k%d' % x[1], [] if x[2] else None)
+    if t == 21: return base.GlobalStateSetter('k%d' % x[1]) if x[2] else base.GlobalStateSetter('k%d' % x[1], [])
+    if t == 2 and x[2][0] == 21 and x[2][2]:
+      a = self.build(x[1])
+      return a.as_global_state('k%d' % x[2][1]) if isop(a) else base.Pipeline([a, self.build(x[2])])
+    if t == 5 and x[2][0] == 21 and not x[2][2]:
+      a = self.build(x[1])
+      return a.set_global_state('k%d' % x[2][1], []) if isop(a) else base.Concatenation([a, self.build(x[2])])
     if t == 2:
       a = self.build(x[1])
       if x[2][0] == 16:
@@ -761,6 +769,14 @@ def gen_expr(rng, depth):
     o = lambda: [] if rng.random() < 0.3 else [a()]
     return [15, rng.randint(0, 4), o(), o()]
   if k == 15: return [18, rng.randint(1, 3), a()]
+  if k == 16 and rng.random() < 0.5:
+    # global state: store an output, read it back (or a key that was never set), set a constant
+    key = rng.randint(0, 1)
+    r = rng.random()
+    if r < 0.4: return [5, [2, a(), [21, key, 1]], [20, key, rng.randint(0, 1)]]        # x.as_global_state(k) + GlobalStateGetter(k)
+    if r < 0.6: return [2, [5, a(), [21, key, 0]], [5, [1], [20, key, 1]]]               # x.set_global_state(k, []) >> (Identity + Getter(k, []))
+    if r < 0.8: return [5, a(), [20, rng.randint(0, 1), rng.randint(0, 1)]]               # a getter of a key nobody set
+    return [2, [2, a(), [21, key, 1]], [2, [20, key, 0], a()]]                           # store, then continue from the stored list
   # lists: chunk, map an operation over the chunks, flatten
   inner = gen_expr(rng, max(d - 1, 1)) if rng.random() < 0.5 else P([2, gen_recomb(rng)])
   return [2, [2, [2, a(), P([3, rng.choice([1, 2, 2, 3])])], [16, inner]], [17, rng.choice([[], [], [1], [2]])]]
@@ -790,6 +806,14 @@ CORPUS = [
      [['d', 0, [('c', [(0, [('c', [(1, [])])])])], 1.0], ['d', 1, [('c', [(2, [])])], 2.0]], 1),
     ('pmx-adopts-parent-root', ('S', [C(1, [('S', [_perm(3, 'p')]), E], False, False, 'x')]), P([2, [3, 0, [0]]]),
      [['d', 0, [('c', [(0, _pd([0, 1, 2]))])], 1.0], ['d', 1, [('c', [(0, _pd([2, 0, 1]))])], 2.0]], 1),
+    ('global-state/getter-unset-key', ('S', [C(1, [E, E, E], False, False, 'x')]), [5, P([0, [5, [0, 1]]]), [20, 0, 0]], [['d', 0, [('c', [(0, [])])], 1.0], ['d', 1, [('c', [(2, [])])], 2.0]], 0),
+    ('global-state/getter-default', ('S', [C(1, [E, E, E], False, False, 'x')]), [5, P([0, [5, [0, 1]]]), [20, 0, 1]], [['d', 0, [('c', [(0, [])])], 1.0], ['d', 1, [('c', [(2, [])])], 2.0]], 0),
+    ('global-state/store-and-read', ('S', [C(1, [E, E, E], False, False, 'x')]), [5, [2, P([0, [6, [0, 1]]]), [21, 1, 1]], [5, [20, 1, 0], [20, 1, 0]]],
+     [['d', 0, [('c', [(0, [])])], 1.0], ['d', 1, [('c', [(2, [])])], 2.0]], 0),
+    ('global-state/set-constant', ('S', [C(1, [E, E, E], False, False, 'x')]), [2, [5, P([1, [0, NW_ALL]]), [21, 0, 0]], [5, [1], [20, 0, 0]]],
+     [['d', 0, [('c', [(0, [])])], 1.0], ['d', 1, [('c', [(2, [])])], 2.0]], 3),
+    ('global-state/plain-operand-has-its-own', ('S', [C(1, [E, E, E], False, False, 'x')]), [2, [2, P([0, [5, [0, 1]]]), [21, 0, 1]], [19, [20, 0, 1]]],
+     [['d', 0, [('c', [(0, [])])], 1.0], ['d', 1, [('c', [(2, [])])], 2.0]], 0),
     ('repeat-plain-callable', ('S', [C(1, [E, E, E], False, False, 'x')]), [8, 2, [19, P([0, [5, [0, 1]]])]],
      [['d', 0, [('c', [(0, [])])], 1.0], ['d', 1, [('c', [(2, [])])], 2.0]], 0),
 ] + [
@@ -925,15 +949,15 @@ def run(ctx):
         key = (repr(d['spec']), repr(e))
         if key not in seen_t and len(targets) < 12:
           seen_t.add(key); targets.append((d['spec'], e))
-    t_end = time.time() + ctx.scale(45, 600)
-    for sp, e in targets:
+    t_end = time.time() + ctx.scale(30, 600)
+    for sp, e in targets[:ctx.scale(5, 12)]:
       if time.time() > t_end or ctx.hits: break
-      chain_search(ctx, rng, [sp], [e], ctx.scale(24, 64), ctx.scale(40, 60), 'targeted/own-spec')
+      chain_search(ctx, rng, [sp], [e], ctx.scale(12, 64), ctx.scale(30, 60), 'targeted/own-spec')
     ops_t = []
     for _, e in targets:
       if repr(e) not in [repr(x) for x in ops_t]: ops_t.append(e)
     if not ctx.hits and time.time() < t_end:
-      chain_search(ctx, rng, chain_specs, ops_t[:3], ctx.scale(8, 64), ctx.scale(40, 60), 'targeted/sparse-family')
+      chain_search(ctx, rng, chain_specs if ctx.thorough else rng.sample(chain_specs, 8), ops_t[:ctx.scale(2, 3)], ctx.scale(4, 64), ctx.scale(30, 60), 'targeted/sparse-family')
   # violation search on the disagreeing cases first (the oracle has already run on every case)
   if ctx.is_broken() and not ctx.hits:
     for i in bad[:50]:
